@@ -345,6 +345,9 @@ func init() {
 		for i := 0; i < nn; i++ {
 			r := root.Fork()
 			text := smallScript(r, i%3 == 2)
+			if i == 0 {
+				text = kitchenSink
+			}
 			u := uris[0]
 			hist := []lspReq{{Op: "open", URI: u, Tid: 0}}
 			for l, n := range lineLengths(text) {
